@@ -165,6 +165,9 @@ def h : Handler := fun op j =>
   | "nernst_cu1" => do
       let a ← floatArgs j 6
       pure (bits (nernstPotentialCU a[0]! a[1]! a[2]! a[3]! a[4]! a[5]!))
+  | "nernst_q1" => do
+      let a ← floatArgs j 4
+      pure (bits (nernstPotentialQ a[0]! a[1]! a[2]! a[3]!))
   | "mobility_u1" => do
       let a ← floatArgs j 6
       pure (bits (mobilityU a[0]! a[1]! a[2]! a[3]! a[4]! a[5]!))
@@ -197,10 +200,13 @@ def h : Handler := fun op j =>
       pure (showUV (henryHAtTDefaultU a[0]! a[1]! a[2]! a[3]!))
   | "nernst_u2" => do
       let a ← uvArgs j 8
-      pure (showUV (nernstPotentialU a[0]! a[1]! a[2]! a[3]! a[4]! a[5]! a[6]! a[7]!))
+      pure (showUV (nernstPotentialU (α := UVm Float) a[0]! a[1]! a[2]! a[3]! a[4]! a[5]! a[6]! a[7]!))
   | "nernst_cu2" => do
       let a ← uvArgs j 6
-      pure (showUV (nernstPotentialCU a[0]! a[1]! a[2]! a[3]! a[4]! a[5]!))
+      pure (showUV (nernstPotentialCU (α := UVm Float) a[0]! a[1]! a[2]! a[3]! a[4]! a[5]!))
+  | "nernst_q2" => do
+      let a ← uvArgs j 4
+      pure (showUV (nernstPotentialQ (α := UVm Float) a[0]! a[1]! a[2]! a[3]!))
   | "mobility_u2" => do
       let a ← uvArgs j 6
       pure (showUV (mobilityU a[0]! a[1]! a[2]! a[3]! a[4]! a[5]!))
